@@ -1,30 +1,49 @@
 import Bng.Drv.Common
 import Bng.Model.Nat
+import Bng.Model.NatKMap
+import Bng.Model.NatLog
 /-
   bngdrv component `nat`: replays traces of the real nat.Manager (+ nat.Logger) on the model and runs
   the C10 monitor on the implementation's observations.
 
-    new <pps> <rangeStart> <rangeEnd> bulk|trad|off   => ok | invalid      (Go ints; `invalid` = NewManager rejected them)
+    new <pps> <rangeStart> <rangeEnd> bulk|trad|off|bulkf|tradf [kern]   => ok | invalid
+                           (Go ints; `invalid` = NewManager rejected them; `kern`: a real kernel subscriber_nat map is
+                            attached; bulkf / tradf: the logger writes a real file with size-based rotation)
     addip p3               => ok | dup
-    alloc k1               => ok p3 <start> <end> i<poolIndex> id<subscriberId> | exhausted
-    dealloc k1             => ok
-    get k1                 => p3 <start> <end> i<poolIndex> id<subscriberId> | none
+    alloc k1               => ok p3 <start> <end> i<poolIndex> id<subscriberId> k1 | exhausted | kernerr
+    dealloc k1             => ok | kernerr
+    get k1                 => p3 <start> <end> i<poolIndex> id<subscriberId> k1 | none
     count                  => <n>
     pools                  => p3:<subs>/<max>,… | -
     hold                   => ok             (the harness takes poolMu: callers now queue at the pool lock)
     spawn alloc k1         => blocked | ok p3 …     (a goroutine calls AllocateNAT; `blocked` = it passed the precheck)
     spawn dealloc k1       => blocked
     unhold                 => <result> ; <result> ; …  | -      (poolMu released, queued callers run in FIFO order)
+    fault on|off           => ok             (kern: the manager's handle of the kernel map is a closed one: every Put and
+                                              every Delete fails)
+    kmap                   => k1:p3:<start>:<end>:id<sub>,… | -     (kern: the kernel map read back)
+    poke ret k1 idx|idx0|pub|priv|ports|sub | poke arg k1 | poke addip p3 | poke pool   => ok
+                                             (the caller writes through the Allocation it was handed last for k1, over the
+                                              address slice it passed to AllocateNAT / AddPublicIP, over what GetPoolStats returned)
+    wfail <n>|off          => ok             (the log writer accepts n more Writes and then fails / works again)
+    flush                  => ok             (Flush + FlushPortBlocks)
     buffer                 => ok             (from now on the harness does not flush the logger after each call)
     flushhold              => held | idle    (Logger.Flush + FlushPortBlocks start in a goroutine; the writer parks inside the
                                               first Write; `idle` = nothing was buffered)
-    flushrelease           => ok | <rec>,…   (the parked flush completes, a final flush follows; every record since `buffer`)
+    flushpark              => parked         (the harness holds the logger's write lock; a flush starts in a goroutine and
+                                              queues at it)
+    flushrelease           => ok | <rec>,…   (a parked flush completes — for `flushpark`: the lock is released and an inline
+                                              flush gets it BEFORE the parked one —, a final flush follows; every record since `buffer`)
+    rotfail on|off         => ok             (file mode: the log directory is renamed away / back: a rotation that comes due
+                                              cannot open the new file; at most 4 calls in between)
+    sync                   => ok             (file mode: flush, then every record that reached the files since the last `sync`)
     stress <subs> <g> <n> <seed> => table=k1:p3:<start>:<end>,… | -   (g goroutines, n random calls each, in parallel;
                                      not replayed on the model: the monitor judges the final table and the log; ends the sequence)
 
   Every observation is followed by ` | <rec>,<rec>,…` when the call wrote log records:
     A:<sub>:k1:p3:<start>:<end>:<size>   R:k1:p3:<start>      (bulk)
     a:<sub>:k1:p3:<port>                 d:k1:p3:<port>       (traditional)
+  When they are written is predicted by `Bng.NatLog` (buffer, flush in flight, writer state).
 -/
 namespace Bng.Drv.NatDrv
 open Bng Bng.Drv Bng.Cgnat
@@ -34,18 +53,29 @@ inductive Pending where
   | dealloc (k : Nat)
 
 structure St where
-  model : Option Cgnat.State := none
+  model : Option Cgnat.KState := none
   mon : Spec.Mon × Spec.Ledger := ({}, {})
   held : Bool := false
+  /-- the logger: buffer, flush in flight, what has reached the output, state of the writer -/
+  lg : NatLog.St LogEntry := {}
+  /-- records of `lg.file` already shown in an observation -/
+  printed : Nat := 0
   /-- `buffer` … `flushrelease`: the harness does not flush the logger after every call; records are
       printed (by model and implementation) only at `flushrelease` -/
   buffering : Bool := false
   flushHeld : Bool := false
-  mark : Nat := 0          -- length of the model log when records were last printed
+  flushParked : Bool := false
   bufCalls : Nat := 0
   pending : List Pending := []
   /-- after `stress` the model no longer knows the state: later lines are echoed, not compared -/
   free : Bool := false
+  /-- a kernel subscriber_nat map is attached / its handle is the closed one -/
+  kern : Bool := false
+  fault : Bool := false
+  /-- file mode: records are shown by `sync` only -/
+  fileMode : Bool := false
+  rotOff : Bool := false
+  rotCalls : Nat := 0
 
 /-- `k1:p3:1024:2047` -/
 def parseTableEntry (s : String) : Option (Nat × Spec.Blk) :=
@@ -55,7 +85,7 @@ def parseTableEntry (s : String) : Option (Nat × Spec.Blk) :=
   | _ => none
 
 def showAlloc (a : Alloc) : String :=
-  s!"p{a.pub} {a.portStart.toNat} {a.portEnd.toNat} i{a.poolIndex} id{a.subId}"
+  s!"p{a.pub} {a.portStart.toNat} {a.portEnd.toNat} i{a.poolIndex} id{a.subId} k{a.priv}"
 
 def showObs : Obs → String
   | .ok => "ok"
@@ -66,6 +96,7 @@ def showObs : Obs → String
   | .none => "none"
   | .count n => s!"{n}"
   | .pools l => if l.isEmpty then "-" else ",".intercalate (l.map fun (ip, s, m) => s!"p{ip}:{s}/{m}")
+  | .kernErr => "kernerr"
 
 def showGet : Obs → String
   | .alloc a => showAlloc a
@@ -76,10 +107,6 @@ def showEntry : LogEntry → String
   | .release priv pub ps => s!"R:k{priv}:p{pub}:{ps.toNat}"
   | .allocate sub priv pub p => s!"a:{sub}:k{priv}:p{pub}:{p.toNat}"
   | .deallocate priv pub p => s!"d:k{priv}:p{pub}:{p.toNat}"
-
-/-- records written between two states, oldest first -/
-def newEntries (before after : Cgnat.State) : List LogEntry :=
-  (after.log.take (after.log.length - before.log.length)).reverse
 
 def withLog (obs : String) (es : List LogEntry) : String :=
   if es.isEmpty then obs else obs ++ " | " ++ ",".intercalate (es.map showEntry)
@@ -103,10 +130,10 @@ def splitImpl (impl : String) : String × List LogEntry :=
   | a :: _ => (a, [])
   | [] => ("", [])
 
-/-- `ok p3 1024 2047 i0 id1` / `p3 1024 2047 i0 id1` → block -/
+/-- `ok p3 1024 2047 i0 id1 k1` / `p3 1024 2047 i0 id1 k1` → block -/
 def parseBlk (toks : List String) : Option Spec.Blk :=
   match toks with
-  | [p, lo, hi, _, _] => do pure { pub := ← parseTagged 'p' p, lo := ← lo.toNat?, hi := ← hi.toNat? }
+  | [p, lo, hi, _, _, _] => do pure { pub := ← parseTagged 'p' p, lo := ← lo.toNat?, hi := ← hi.toNat? }
   | _ => none
 
 /-- both halves of the monitor: the block/attribution clauses and the record ledger -/
@@ -117,6 +144,8 @@ def feed (c : Cfg) (m : Spec.Mon × Spec.Ledger) (evs : List Spec.Ev) : (Spec.Mo
 
 /-- at most this many calls between `buffer` and `flushrelease` (the logger flushes by itself at 50 buffered records) -/
 def maxBufCalls : Nat := 40
+/-- at most this many calls between `rotfail on` and `rotfail off` (the backlog must not span two rotations) -/
+def maxRotCalls : Nat := 4
 
 /-- the API event of one call's answer -/
 def apiEvent (isAlloc : Bool) (k : Nat) (ans : String) : List Spec.Ev :=
@@ -135,56 +164,105 @@ def apiEvent (isAlloc : Bool) (k : Nat) (ans : String) : List Spec.Ev :=
 def mkViols (vs : List Spec.Verdict) : List (String × String × String) :=
   vs.map fun (n, d) => (n, "none", d)
 
-def parseMode (s : String) : Option (Bool × Bool) :=
-  if s == "bulk" then some (true, true) else if s == "trad" then some (true, false)
-  else if s == "off" then some (false, false) else none
+/-- (logger attached, bulk format, real file) -/
+def parseMode (s : String) : Option (Bool × Bool × Bool) :=
+  if s == "bulk" then some (true, true, false) else if s == "trad" then some (true, false, false)
+  else if s == "off" then some (false, false, false)
+  else if s == "bulkf" then some (true, true, true) else if s == "tradf" then some (true, false, true) else none
 
-def runPending (s : Cgnat.State) : List Pending → Cgnat.State × List String
-  | [] => (s, [])
+/-- the manager's records of one step go into the logger's buffer -/
+def logNew (lg : NatLog.St LogEntry) (before after : Cgnat.State) : NatLog.St LogEntry :=
+  (NatLog.recordsOf before after).foldl NatLog.add lg
+
+def runPending (fault : Bool) (x : Cgnat.KState) : List Pending → Cgnat.KState × List String
+  | [] => (x, [])
   | .commit k :: rest =>
-    let (s', o) := allocCommit s k
-    let (s'', os) := runPending s' rest
-    (s'', showObs o :: os)
+    let (x', o) := kstep x (if fault then .commitFail k else .allocCommit k)
+    let (x'', os) := runPending fault x' rest
+    (x'', showObs o :: os)
   | .dealloc k :: rest =>
-    let (s', o) := dealloc s k
-    let (s'', os) := runPending s' rest
-    (s'', showObs o :: os)
+    let (x', o) := kstep x (if fault then .deallocFail k else .dealloc k)
+    let (x'', os) := runPending fault x' rest
+    (x'', showObs o :: os)
+
+def sortByKey (l : List (Nat × KBlk)) : List (Nat × KBlk) := (l.toArray.qsort (fun a b => a.1 < b.1)).toList
+
+def showKmap (kern : AMap Nat KBlk) : String :=
+  if kern.isEmpty then "-" else
+  ",".intercalate ((sortByKey kern).map fun (k, b) => s!"k{k}:p{b.pub}:{b.lo.toNat}:{b.hi.toNat}:id{b.sub}")
+
+/-- `k1:p3:1024:2047:id1[:next…]` -/
+def parseKmapEntry (s : String) : Option (Nat × Spec.Blk) :=
+  match s.splitOn ":" with
+  | k :: p :: lo :: hi :: _ => do
+      pure (← parseTagged 'k' k, { pub := ← parseTagged 'p' p, lo := ← lo.toNat?, hi := ← hi.toNat? })
+  | _ => none
+
+/-- two entries of the kernel map as read back that translate to overlapping ports of one public address -/
+def kmapOverlap : List (Nat × Spec.Blk) → Option ((Nat × Spec.Blk) × (Nat × Spec.Blk))
+  | [] => none
+  | x :: rest => match rest.find? (fun y => Spec.overlaps x.2 y.2) with
+    | some y => some (x, y)
+    | none => kmapOverlap rest
+
+def pokeFields : List String := ["idx", "idx0", "pub", "priv", "ports", "sub"]
 
 def step (st : St) (toks : List String) (impl : String) : St × LineResult :=
-  match toks with
-  | ["new", pps, rs, re, mode] =>
+  let newWith := fun (pps rs re mode : String) (kern : Bool) =>
     match pps.toInt?, rs.toInt?, re.toInt?, parseMode mode with
-    | some pps, some rs, some re, some (logOn, bulk) =>
+    | some pps, some rs, some re, some (logOn, bulk, file) =>
       match newManager pps rs re logOn bulk with
-      | some c => ({ model := some (init c) }, { modelObs := "ok" })
-      | none => ({}, { modelObs := "invalid" })
+      | some c => (({ model := some (kinit c), kern := kern, fileMode := file } : St), ({ modelObs := "ok" } : LineResult))
+      | none => (({} : St), { modelObs := "invalid" })
     | _, _, _, _ => (st, { modelObs := "badop" })
+  match toks with
+  | ["new", pps, rs, re, mode] => newWith pps rs re mode false
+  | ["new", pps, rs, re, mode, "kern"] => newWith pps rs re mode true
   | _ =>
     match st.model with
     | none => (st, { modelObs := "badop" })
-    | some m =>
+    | some x =>
       if st.free then (st, { modelObs := impl }) else
+      let m := x.s
       let c := m.cfg
       let (api, implLog) := splitImpl impl
       let logEvs := implLog.map Spec.Ev.logged
+      -- records are shown at the end of this line: flush the logger's model and print what reached the output
+      let shown := fun (lg : NatLog.St LogEntry) => (lg.file.drop st.printed, lg.file.length)
+      let settledEv := fun (lg : NatLog.St LogEntry) => if NatLog.settled lg then [Spec.Ev.settled] else []
+      -- the harness does not show records now (no flush after the call, or a real file whose rotation decides when)
+      let quiet := st.buffering || st.fileMode
       -- plain (sequential) calls
-      let plain := fun (op : Op) (shown : Obs → String) (evs : List Spec.Ev) =>
+      let plain := fun (op : Op) (shownObs : Obs → String) (evs : List Spec.Ev) =>
         if st.held then (st, ({ modelObs := "badop" } : LineResult)) else
         let isCall := match op with
           | .alloc _ => true
           | .dealloc _ => true
           | _ => false
         if st.buffering && isCall && st.bufCalls ≥ maxBufCalls then (st, { modelObs := "badop" }) else
-        let (m', o) := Cgnat.step m op
-        if st.buffering then
-          -- the records stay in the logger's buffer: only the answer is observed now
+        if st.fileMode && st.rotOff && isCall && st.rotCalls ≥ maxRotCalls then (st, { modelObs := "badop" }) else
+        let op := if st.fault then (match op with
+          | .alloc k => .allocFail k
+          | .dealloc k => .deallocFail k
+          | o => o) else op
+        let (x', o) := kstep x op
+        let lg := logNew st.lg m x'.s
+        let st := { st with bufCalls := if st.buffering && isCall then st.bufCalls + 1 else st.bufCalls,
+                            rotCalls := if st.fileMode && st.rotOff && isCall then st.rotCalls + 1 else st.rotCalls }
+        if quiet then
+          -- the records stay in the logger: only the answer is observed now
           let (mon', vs) := feed c st.mon (evs ++ logEvs)
-          ({ st with model := some m', mon := mon', bufCalls := if isCall then st.bufCalls + 1 else st.bufCalls },
-           { modelObs := shown o, viols := mkViols vs })
+          ({ st with model := some x', mon := mon', lg := lg }, { modelObs := shownObs o, viols := mkViols vs })
+        else if !isCall then
+          -- AddPublicIP: the harness does not flush the logger after it
+          let (mon', vs) := feed c st.mon (evs ++ logEvs ++ settledEv lg)
+          ({ st with model := some x', mon := mon', lg := lg }, { modelObs := shownObs o, viols := mkViols vs })
         else
-        let (mon', vs) := feed c st.mon (evs ++ logEvs ++ [.settled])
-        ({ st with model := some m', mon := mon' },
-         { modelObs := withLog (shown o) (newEntries m m'), viols := mkViols vs })
+        let lg := NatLog.flush lg
+        let (recs, n) := shown lg
+        let (mon', vs) := feed c st.mon (evs ++ logEvs ++ settledEv lg)
+        ({ st with model := some x', mon := mon', lg := lg, printed := n },
+         { modelObs := withLog (shownObs o) recs, viols := mkViols vs })
       match toks with
       | ["addip", p] => match parseTagged 'p' p with
         | some ip => plain (.addIp ip) showObs []
@@ -209,10 +287,44 @@ def step (st : St) (toks : List String) (impl : String) : St × LineResult :=
         | none => (st, { modelObs := "badop" })
       | ["count"] => (st, { modelObs := showObs (Cgnat.step m .count).2 })
       | ["pools"] => if st.held then (st, { modelObs := "badop" }) else (st, { modelObs := showObs (Cgnat.step m .pools).2 })
+      | "poke" :: rest =>
+        -- the caller writes over its own memory: not a call, nothing of the manager changes
+        let ok := match rest with
+          | ["ret", k, f] => (parseTagged 'k' k).isSome && pokeFields.contains f
+          | ["arg", k] => (parseTagged 'k' k).isSome
+          | ["addip", p] => (parseTagged 'p' p).isSome
+          | ["pool"] => !st.held
+          | _ => false
+        if ok then ({ st with model := some (kstep x .poke).1 }, { modelObs := showObs (kstep x .poke).2 })
+        else (st, { modelObs := "badop" })
+      | ["fault", f] =>
+        if !st.kern || (f != "on" && f != "off") then (st, { modelObs := "badop" }) else
+        ({ st with fault := f == "on" }, { modelObs := "ok" })
+      | ["kmap"] =>
+        if !st.kern then (st, { modelObs := "badop" }) else
+        let ents := if api == "-" then [] else (api.splitOn ",").filterMap parseKmapEntry
+        let viols := match kmapOverlap ents with
+          | some ((k1, b1), (k2, b2)) =>
+            [("overlap", "none", s!"kernel subscriber_nat translates k{k1} to p{b1.pub} ports {b1.lo}-{b1.hi} and k{k2} to ports {b2.lo}-{b2.hi}")]
+          | none => []
+        (st, { modelObs := showKmap x.kern, viols := viols })
+      | ["wfail", n] =>
+        if st.buffering || st.fileMode then (st, { modelObs := "badop" }) else
+        if n == "off" then ({ st with lg := NatLog.ctl st.lg (.writer none) }, { modelObs := "ok" }) else
+        match n.toNat? with
+        | some n => if n > 1000 then (st, { modelObs := "badop" }) else
+          ({ st with lg := NatLog.ctl st.lg (.writer (some n)) }, { modelObs := "ok" })
+        | none => (st, { modelObs := "badop" })
+      | ["flush"] =>
+        if st.buffering || st.held || st.fileMode then (st, { modelObs := "badop" }) else
+        let lg := NatLog.flush st.lg
+        let (recs, n) := shown lg
+        let (mon', vs) := feed c st.mon (logEvs ++ settledEv lg)
+        ({ st with mon := mon', lg := lg, printed := n }, { modelObs := withLog "ok" recs, viols := mkViols vs })
       | ["stress", a, b, n, sd] =>
         match a.toNat?, b.toNat?, n.toNat?, sd.toNat? with
         | some _, some _, some _, some _ =>
-          if st.held || st.buffering then (st, { modelObs := "badop" }) else
+          if st.held || st.buffering || st.fileMode then (st, { modelObs := "badop" }) else
           let tab := match api.splitOn "=" with
             | ["table", t] => if t == "-" then [] else (t.splitOn ",").filterMap parseTableEntry
             | _ => []
@@ -225,54 +337,79 @@ def step (st : St) (toks : List String) (impl : String) : St × LineResult :=
         | some k =>
           if !st.held then (st, { modelObs := "badop" }) else
           if st.buffering && st.bufCalls ≥ maxBufCalls then (st, { modelObs := "badop" }) else
+          if st.fileMode && st.rotOff && st.rotCalls ≥ maxRotCalls then (st, { modelObs := "badop" }) else
           let (_, o) := allocPre m k
           let (mon', vs) := feed c st.mon (apiEvent true k api)
           let pend := match o with
             | .miss => st.pending ++ [.commit k]
             | _ => st.pending
-          ({ st with mon := mon', pending := pend, bufCalls := if st.buffering then st.bufCalls + 1 else st.bufCalls },
+          ({ st with mon := mon', pending := pend, bufCalls := if st.buffering then st.bufCalls + 1 else st.bufCalls,
+                     rotCalls := if st.fileMode && st.rotOff then st.rotCalls + 1 else st.rotCalls },
            { modelObs := showObs o, viols := mkViols vs })
         | none => (st, { modelObs := "badop" })
       | ["spawn", "dealloc", k] => match parseTagged 'k' k with
         | some k =>
           if !st.held then (st, { modelObs := "badop" }) else
           if st.buffering && st.bufCalls ≥ maxBufCalls then (st, { modelObs := "badop" }) else
-          ({ st with pending := st.pending ++ [.dealloc k], bufCalls := if st.buffering then st.bufCalls + 1 else st.bufCalls },
+          if st.fileMode && st.rotOff && st.rotCalls ≥ maxRotCalls then (st, { modelObs := "badop" }) else
+          ({ st with pending := st.pending ++ [.dealloc k], bufCalls := if st.buffering then st.bufCalls + 1 else st.bufCalls,
+                     rotCalls := if st.fileMode && st.rotOff then st.rotCalls + 1 else st.rotCalls },
            { modelObs := "blocked" })
         | none => (st, { modelObs := "badop" })
       | ["unhold"] =>
         if !st.held then (st, { modelObs := "badop" }) else
-        let (m', outs) := runPending m st.pending
-        let shown := if outs.isEmpty then "-" else " ; ".intercalate outs
+        let (x', outs) := runPending st.fault x st.pending
+        let shownOuts := if outs.isEmpty then "-" else " ; ".intercalate outs
         -- the implementation's answers, call by call
         let answers := api.splitOn " ; "
         let evs := (st.pending.zip answers).flatMap fun (p, ans) =>
           match p with
           | .commit k => apiEvent true k ans
           | .dealloc k => apiEvent false k ans
-        if st.buffering then
+        let lg := logNew st.lg m x'.s
+        if quiet then
           let (mon', vs) := feed c st.mon (evs ++ logEvs)
-          ({ st with model := some m', mon := mon', held := false, pending := [] },
-           { modelObs := shown, viols := mkViols vs })
+          ({ st with model := some x', mon := mon', lg := lg, held := false, pending := [] },
+           { modelObs := shownOuts, viols := mkViols vs })
         else
-        let (mon', vs) := feed c st.mon (evs ++ logEvs ++ [.settled])
-        ({ st with model := some m', mon := mon', held := false, pending := [] },
-         { modelObs := withLog shown (newEntries m m'), viols := mkViols vs })
+        let lg := NatLog.flush lg
+        let (recs, n) := shown lg
+        let (mon', vs) := feed c st.mon (evs ++ logEvs ++ settledEv lg)
+        ({ st with model := some x', mon := mon', lg := lg, printed := n, held := false, pending := [] },
+         { modelObs := withLog shownOuts recs, viols := mkViols vs })
       | ["buffer"] =>
-        if st.buffering || st.held then (st, { modelObs := "badop" }) else
-        ({ st with buffering := true, mark := m.log.length, bufCalls := 0 }, { modelObs := "ok" })
+        if st.buffering || st.held || st.fileMode then (st, { modelObs := "badop" }) else
+        -- not while the writer fails or records it refused are still waiting
+        if st.lg.budget.isSome || !NatLog.settled st.lg then (st, { modelObs := "badop" }) else
+        ({ st with buffering := true, bufCalls := 0 }, { modelObs := "ok" })
       | ["flushhold"] =>
         -- a flush is started and parked inside its first Write: `held` when there is something to write
-        if !st.buffering || st.flushHeld || st.held then (st, { modelObs := "badop" }) else
-        if m.log.length > st.mark then ({ st with flushHeld := true }, { modelObs := "held" })
+        if !st.buffering || st.flushHeld || st.flushParked || st.held then (st, { modelObs := "badop" }) else
+        if !st.lg.buf.isEmpty then ({ st with flushHeld := true, lg := NatLog.take st.lg }, { modelObs := "held" })
         else (st, { modelObs := "idle" })
+      | ["flushpark"] =>
+        -- a flush queues at the write lock, which the harness holds: it has not looked at the buffer yet
+        if !st.buffering || st.flushHeld || st.flushParked || st.held then (st, { modelObs := "badop" }) else
+        ({ st with flushParked := true }, { modelObs := "parked" })
       | ["flushrelease"] =>
-        -- the parked flush (if any) completes, everything is flushed: all records since `buffer`, in order
+        -- the flush in flight (if any) completes, everything is flushed: all records since `buffer`, in order
         if !st.buffering || st.held then (st, { modelObs := "badop" }) else
-        let recs := (m.log.take (m.log.length - st.mark)).reverse
-        let (mon', vs) := feed c st.mon (logEvs ++ [.settled])
-        ({ st with mon := mon', buffering := false, flushHeld := false, mark := m.log.length, bufCalls := 0 },
+        let lg := NatLog.flush (NatLog.finish st.lg)
+        let (recs, n) := shown lg
+        let (mon', vs) := feed c st.mon (logEvs ++ settledEv lg)
+        ({ st with mon := mon', lg := lg, printed := n, buffering := false, flushHeld := false, flushParked := false,
+                   bufCalls := 0 },
          { modelObs := withLog "ok" recs, viols := mkViols vs })
+      | ["rotfail", f] =>
+        if !st.fileMode || st.held || (f != "on" && f != "off") || st.rotOff == (f == "on") then
+          (st, { modelObs := "badop" })
+        else ({ st with rotOff := f == "on", rotCalls := 0 }, { modelObs := "ok" })
+      | ["sync"] =>
+        if !st.fileMode || st.held || st.rotOff then (st, { modelObs := "badop" }) else
+        let lg := NatLog.flush st.lg
+        let (recs, n) := shown lg
+        let (mon', vs) := feed c st.mon (logEvs ++ settledEv lg)
+        ({ st with mon := mon', lg := lg, printed := n }, { modelObs := withLog "ok" recs, viols := mkViols vs })
       | _ => (st, { modelObs := "badop" })
 
 def component : Component := { σ := St, init := {}, step := step }
